@@ -5,20 +5,92 @@ calls replaced by stubs that return fresh symbols (and check the arguments of th
 emitted definition is the straight-line body of ONE function; coq/tie/C18_TieProps.v composes them
 again.  Shape: a non-square H x W = 2 x 3 image (every pixel gets its own definition).
 """
+import ast, os
 from tracer import shim
 from tracer.emit import Gen
 
 H, W = 2, 3
 FILE = 'odak/learn/perception/foveation.py'
-FUNCS = ['make_3d_location_map', 'make_eccentricity_distance_maps', 'make_pooling_size_map_pixels',
-         'make_pooling_size_map_lod', 'make_equi_pooling_size_map_pixels', 'make_equi_pooling_size_map_lod']
+ENTRY = ['make_eccentricity_distance_maps', 'make_pooling_size_map_pixels', 'make_pooling_size_map_lod',
+         'make_equi_pooling_size_map_pixels', 'make_equi_pooling_size_map_lod']
 MODES = {'q': 'quadratic', 'l': 'linear'}
+
+
+def _functions():
+    """every top-level function of the file (private helpers the entry points may call are traced through)"""
+    tree = ast.parse(open(os.path.join(shim.REPO, FILE)).read())
+    return {n.name: n for n in tree.body if isinstance(n, ast.FunctionDef)}
 
 
 def _fresh():
     ns = shim.base_namespace()
-    shim.load(FILE, FUNCS, ns)
+    shim.load(FILE, sorted(_functions()), ns)
     return ns
+
+
+def _binder(fname):
+    """(*args, **kwargs) of a call of the real `fname` -> list of argument values in the order of the signature it has
+    TODAY, defaults filled in: the stubs below do not depend on parameter names or on positional / keyword passing"""
+    fn = _functions().get(fname)
+    if fn is None:
+        raise shim.TraceError('%s: function %s not found' % (FILE, fname))
+    names = [a.arg for a in fn.args.posonlyargs + fn.args.args]
+    defaults = {}
+    for nm, d in zip(names[len(names) - len(fn.args.defaults):], fn.args.defaults):
+        try:
+            defaults[nm] = ast.literal_eval(d)
+        except Exception:
+            pass
+    bind = shim.binder(FILE, fname)
+
+    def ordered(*a, **k):
+        d = bind(*a, **k)
+        unknown = set(d) - set(names)
+        if unknown:
+            raise shim.TraceError('%s called with unknown argument(s) %s' % (fname, sorted(unknown)))
+        out = []
+        for nm in names:
+            if nm in d: out.append(d[nm])
+            elif nm in defaults: out.append(defaults[nm])
+            else: raise shim.TraceError('%s called without %s' % (fname, nm))
+        return out
+    return ordered
+
+
+def _same(x, v):
+    """the argument is the symbol v itself (not merely an equal-looking value)"""
+    return x is v
+
+
+def _is_gaze(x, g0, g1):
+    try:
+        return len(x) == 2 and x[0] is g0 and x[1] is g1
+    except Exception:
+        return False
+
+
+def _consts(x):
+    try:
+        return [float(shim.E.lift(t).cval()) for t in x]
+    except Exception:
+        return None
+
+
+class _acos_cut:
+    """torch.acos / x.acos() / torch.arccos replaced by a recording stub while one function is traced (the tensor-method
+    spelling is served from shim._TORCH_FUNCS, the function spelling from the namespace)"""
+    def __init__(s, ns, stub): s.ns, s.stub = ns, stub
+    def __enter__(s):
+        s.old = {k: shim._TORCH_FUNCS.get(k) for k in ('acos', 'arccos')}
+        for k in ('acos', 'arccos'):
+            shim._TORCH_FUNCS[k] = s.stub
+            s.ns['torch'].__dict__[k] = s.stub
+        return s
+    def __exit__(s, *a):
+        for k, v in s.old.items():
+            if v is None: shim._TORCH_FUNCS.pop(k, None)
+            else: shim._TORCH_FUNCS[k] = v
+        return False
 
 
 def trace():
@@ -26,7 +98,7 @@ def trace():
     g0, g1, al, rw, rd = [shim.var(n) for n in ('g0', 'g1', 'alpha', 'rw', 'rd')]
     size = (H, W)
 
-    # ---- 1. eccentricity and distance maps (calls make_3d_location_map: traced through)
+    # ---- 1. eccentricity and distance maps (helpers such as make_3d_location_map are traced through)
     ns = _fresh()
     ecc, dist = ns['make_eccentricity_distance_maps']([g0, g1], size, rw, rd)
     assert ecc.shape == size and dist.shape == size, (ecc.shape, dist.shape)
@@ -39,19 +111,19 @@ def trace():
     for tag, mode in MODES.items():
         ns = _fresh()
         calls = []
+        bind = _binder('make_eccentricity_distance_maps')
 
-        def stub(gaze, sz, w_, d_, calls=calls):
-            k = len(calls)
-            calls.append((gaze, tuple(sz), w_, d_))
-            return shim.sym('e' if k == 0 else 'c', size), shim.sym('D' if k == 0 else 'Dc', size)
+        def stub(*a, calls=calls, bind=bind, **k):
+            n = len(calls)
+            calls.append(bind(*a, **k))
+            return shim.sym('e' if n == 0 else 'c', size), shim.sym('D' if n == 0 else 'Dc', size)
         ns['make_eccentricity_distance_maps'] = stub
-        gaze = [g0, g1]
-        pix = ns['make_pooling_size_map_pixels'](gaze, size, al, rw, rd, mode)
+        pix = ns['make_pooling_size_map_pixels']([g0, g1], size, al, rw, rd, mode)
         if len(calls) != 2:
             raise shim.TraceError('make_pooling_size_map_pixels: expected 2 calls of make_eccentricity_distance_maps, saw %d' % len(calls))
         (ga, sa, wa, da), (gb, sb, wb, db) = calls
-        ok = (ga[0] is g0 and ga[1] is g1 and sa == size and wa is rw and da is rd and sb == size and wb is rw and db is rd
-              and [float(shim.E.lift(x).cval()) for x in gb] == [0.5, 0.5])
+        ok = (_is_gaze(ga, g0, g1) and tuple(sa) == size and _same(wa, rw) and _same(da, rd)
+              and tuple(sb) == size and _same(wb, rw) and _same(db, rd) and _consts(gb) == [0.5, 0.5])
         if not ok:
             raise shim.TraceError('make_pooling_size_map_pixels: unexpected arguments to make_eccentricity_distance_maps: %r' % (calls,))
         assert pix.shape == size
@@ -63,33 +135,33 @@ def trace():
     # ---- 3. LOD from pixels (stub for make_pooling_size_map_pixels)
     ns = _fresh()
     seen = []
+    bind = _binder('make_pooling_size_map_pixels')
 
-    def stub_pix(gaze, sz, a_, w_, d_, m_, seen=seen):
-        seen.append((gaze, tuple(sz), a_, w_, d_, m_))
+    def stub_pix(*a, seen=seen, bind=bind, **k):
+        seen.append(bind(*a, **k))
         return shim.sym('p', size)
     ns['make_pooling_size_map_pixels'] = stub_pix
-    gaze = [g0, g1]
-    lod = ns['make_pooling_size_map_lod'](gaze, size, al, rw, rd, 'quadratic')
-    if len(seen) != 1 or not (seen[0][0] is gaze and seen[0][1] == size and seen[0][2] is al and seen[0][3] is rw
-                              and seen[0][4] is rd and seen[0][5] == 'quadratic'):
+    lod = ns['make_pooling_size_map_lod']([g0, g1], size, al, rw, rd, 'quadratic')
+    if len(seen) != 1 or not (_is_gaze(seen[0][0], g0, g1) and tuple(seen[0][1]) == size and _same(seen[0][2], al) and _same(seen[0][3], rw)
+                              and _same(seen[0][4], rd) and seen[0][5] == 'quadratic'):
         raise shim.TraceError('make_pooling_size_map_lod: unexpected call of make_pooling_size_map_pixels: %r' % (seen,))
+    assert lod.shape == size
     for i in range(H):
         for j in range(W):
             g.add('lod_%d_%d' % (i, j), ['p_%d_%d' % (i, j)], lod[i, j])
 
     # ---- 4. equirectangular: pixels (one function) and LOD (stub)
-    # torch.acos is stubbed too: the body is  F(acos(G(gaze)))  with one acos call on the whole map;
+    # acos is a cut point too: the body is  F(acos(G(gaze)))  with one acos call on the whole map;
     # G (the clamped cosine) and F (pooling size from the eccentricity) are emitted separately
     for tag, mode in MODES.items():
         ns = _fresh()
         acos_args = []
 
-        def stub_acos(x, acos_args=acos_args):
+        def stub_acos(x, *a, acos_args=acos_args, **k):
             acos_args.append(x)
             return shim.sym('e', size)
-        ns['torch'].__dict__['acos'] = stub_acos
-        ns['torch'].__dict__['arccos'] = stub_acos
-        ep = ns['make_equi_pooling_size_map_pixels']([g0, g1], size, al, mode)
+        with _acos_cut(ns, stub_acos):
+            ep = ns['make_equi_pooling_size_map_pixels']([g0, g1], size, al, mode)
         if len(acos_args) != 1 or tuple(acos_args[0].shape) != size:
             raise shim.TraceError('make_equi_pooling_size_map_pixels: expected one acos over the %s map' % (size,))
         assert ep.shape == size
@@ -100,15 +172,16 @@ def trace():
                 g.add('epix_%s_%d_%d' % (tag, i, j), ['e_%d_%d' % (i, j), 'alpha'], ep[i, j])
     ns = _fresh()
     seen2 = []
+    bind2 = _binder('make_equi_pooling_size_map_pixels')
 
-    def stub_epix(gaze, sz, a_, m_, seen2=seen2):
-        seen2.append((gaze, tuple(sz), a_, m_))
+    def stub_epix(*a, seen2=seen2, bind2=bind2, **k):
+        seen2.append(bind2(*a, **k))
         return shim.sym('p', size)
     ns['make_equi_pooling_size_map_pixels'] = stub_epix
-    gaze = [g0, g1]
-    elod = ns['make_equi_pooling_size_map_lod'](gaze, size, al, 'linear')
-    if len(seen2) != 1 or not (seen2[0][0] is gaze and seen2[0][1] == size and seen2[0][2] is al and seen2[0][3] == 'linear'):
+    elod = ns['make_equi_pooling_size_map_lod']([g0, g1], size, al, 'linear')
+    if len(seen2) != 1 or not (_is_gaze(seen2[0][0], g0, g1) and tuple(seen2[0][1]) == size and _same(seen2[0][2], al) and seen2[0][3] == 'linear'):
         raise shim.TraceError('make_equi_pooling_size_map_lod: unexpected call of make_equi_pooling_size_map_pixels: %r' % (seen2,))
+    assert elod.shape == size
     for i in range(H):
         for j in range(W):
             g.add('elod_%d_%d' % (i, j), ['p_%d_%d' % (i, j)], elod[i, j])
